@@ -4,6 +4,7 @@ import random
 from .proto import *
 from . import gens_big as GB
 from . import gens_r2 as R2
+from . import gens_r3 as R3
 
 ERR_KINDS_SMALL = ["ER_NO", "ER_BAD_DB_ERROR", "ER_PARSE_ERROR", "ER_NO_SUCH_TABLE", "ER_DUP_ENTRY",
                    "ER_ACCESS_DENIED_ERROR", "ER_UNKNOWN_ERROR", "ER_LOCK_DEADLOCK"]
@@ -141,7 +142,7 @@ def wrap_opt(rng, v):
 def value_for_col(rng, ty, fl, allow_null=True):
     """A value that a column of type ty can carry (same family), or NULL."""
     if allow_null and not (fl & F_NOT_NULL) and rng.random() < 0.15:
-        return rng.choice([v_none("u8"), v_none("str"), v_none("i64"), v_myc_null()])
+        return rng.choice([v_none("u8"), v_none("str"), v_none("i64"), v_myc_null(), v_ref(v_none("i32")), v_ref(v_myc_null())])
     if ty in INT_TYPES:
         kinds = kinds_fitting(ty, fl)
         r = rng.random()
@@ -1730,3 +1731,9 @@ gen_C20 = (lambda f: (lambda rng, tier: f(rng, tier) + R2.c20_wedge(rng, tier)))
 gen_C06 = (lambda f: (lambda rng, tier: f(rng, tier) + R2.c06_extra(rng, tier)))(gen_C06)
 gen_C07 = (lambda f: (lambda rng, tier: f(rng, tier) + R2.c07_extra(rng, tier)))(gen_C07)
 gen_C12 = (lambda f: (lambda rng, tier: f(rng, tier) + R2.c12_extra(rng, tier)))(gen_C12)
+
+
+# third round of seeded defects
+gen_C03 = (lambda f: (lambda rng, tier: f(rng, tier) + R3.c03_extra(rng, tier)))(gen_C03)
+gen_C07 = (lambda f: (lambda rng, tier: f(rng, tier) + R3.c07_extra(rng, tier)))(gen_C07)
+gen_C13 = (lambda f: (lambda rng, tier: f(rng, tier) + R3.c13_extra(rng, tier)))(gen_C13)
